@@ -5,6 +5,14 @@ import sys
 import json
 import importlib
 
+VENV_PYTHON = "/venv/bin/python"
+if os.path.realpath(sys.executable) != os.path.realpath(VENV_PYTHON) and os.path.exists(VENV_PYTHON) \
+        and not os.environ.get("MKMANIFEST_REEXEC"):
+    # the property modules import usim's dependencies: under another interpreter they look
+    # "missing" and would be listed as not built (this happened once)
+    os.environ["MKMANIFEST_REEXEC"] = "1"
+    os.execv(VENV_PYTHON, [VENV_PYTHON] + sys.argv)
+
 sys.path.insert(0, os.path.dirname(os.path.dirname(os.path.abspath(__file__))))
 os.environ.setdefault("USIM_REPO", "/repo")
 
@@ -25,9 +33,12 @@ def main():
             continue
         try:
             P = importlib.import_module("usimdst.props.%s" % pid)
-        except ModuleNotFoundError:
-            missing.append(pid)
-            continue
+        except ModuleNotFoundError as err:
+            if not os.path.exists(os.path.join(os.path.dirname(os.path.dirname(
+                    os.path.abspath(__file__))), "usimdst", "props", pid + ".py")):
+                missing.append(pid)
+                continue
+            raise SystemExit("cannot import %s (%s): MANIFEST.json left untouched" % (pid, err))
         checks.append({
             "property_id": pid,
             "quick_cmd": "./check %s --tier quick" % pid,
